@@ -109,6 +109,7 @@ def run(tier, seed, replay=None):
     chk.proofs("Pool")       # borrow discipline of sync.Pool buffers: checker soundness on all paths, exclusive ownership
     chk.oblig("O_C14")
     chk.oblig("O_C14_pool")     # sync.Pool buffers: no use after Put on any path of any borrower
+    chk.oblig("O_C14_fields")   # observers (called by every run): every written field has a mutex common to all its accesses; guarded root fields = reviewed
     chk.oblig("O_C14_lazy")     # shared model objects: writes from read-API methods and reads of those fields are the reviewed ones; caches filled at solve time are read under the lock
     ev = C.run_oblig("O_C14_eval")
     chk.ob("Oblig/O_C14_eval.v evaluates (vm_compute) the lockset analysis on the regenerated skeletons", ev["ok"], ev["log"][-400:])
